@@ -43,6 +43,7 @@ func TestMain(m *testing.M) {
 }
 
 var formats = []ply.Format{ply.ASCII, ply.BinaryLittleEndian, ply.BinaryBigEndian}
+var encName = []string{"ascii", "little-endian", "big-endian"}
 
 // ---------------------------------------------------------------- own header parser
 
@@ -872,10 +873,76 @@ func runConc(c ConcCase, o *vh.Obs) *vh.Failure {
 	return nil
 }
 
+// ---------------------------------------------------------------- huge meshes (index values beyond 2^24)
+
+// HugeCase is a triangle mesh with more than 2^24 vertices whose triangles reference vertex
+// numbers that a float32 cannot represent; every vertex has its own float32-exact position, so a
+// corner that comes back from a neighbouring vertex is visible.
+type HugeCase struct {
+	Format int
+	N      int
+	Idx    []int
+}
+
+func hugeCases() []HugeCase {
+	const b = 1 << 24
+	n := b + 8
+	idx := []int{0, 1, n - 1, b + 1, b - 1, b + 3, b + 5, b + 2, 5, n - 2, b + 7, b}
+	var out []HugeCase
+	for f := range formats {
+		out = append(out, HugeCase{Format: f, N: n, Idx: idx})
+	}
+	return out
+}
+
+func hugePos(i int) vector3.Float64 {
+	return vector3.New(float64(i%4096), float64(i/4096), 0.5)
+}
+
+func runHuge(c HugeCase, o *vh.Obs) *vh.Failure {
+	enc := encName[c.Format%3]
+	o.Class("huge/" + enc)
+	o.NonTrivial()
+	pos := make([]vector3.Float64, c.N)
+	for i := range pos {
+		pos[i] = hugePos(i)
+	}
+	src := modeling.NewTriangleMesh(c.Idx).SetFloat3Attribute(modeling.PositionAttribute, pos)
+	buf := &bytes.Buffer{}
+	if err := ply.Write(buf, src, formats[c.Format%3]); err != nil {
+		return vh.Failf("huge/write-error/"+enc, "writing %d vertices: %v", c.N, err)
+	}
+	pos, src = nil, modeling.Mesh{}
+	back, err := ply.ReadMesh(bytes.NewReader(buf.Bytes()))
+	if err != nil {
+		return vh.Failf("huge/read-error/"+enc, "reading back %d vertices (%d bytes): %v", c.N, buf.Len(), err)
+	}
+	if back.Topology() != modeling.TriangleTopology || back.PrimitiveCount() != len(c.Idx)/3 {
+		return vh.Failf("huge/primitives/"+enc, "wrote %d triangles over %d vertices, read topology %v with %d primitives", len(c.Idx)/3, c.N, back.Topology(), back.PrimitiveCount())
+	}
+	if !back.HasFloat3Attribute(modeling.PositionAttribute) {
+		return vh.Failf("huge/attribute-lost/"+enc, "position attribute missing after the round trip")
+	}
+	got := back.Float3Attribute(modeling.PositionAttribute)
+	ind := back.Indices()
+	for k, want := range c.Idx {
+		gi := ind.At(k)
+		if gi < 0 || gi >= got.Len() {
+			return vh.Failf("huge/index-out-of-range/"+enc, "corner %d references vertex %d of %d", k, gi, got.Len())
+		}
+		if got.At(gi) != hugePos(want) {
+			return vh.Failf("huge/corner-value/"+enc, "corner %d was written with vertex %d at %v and comes back with vertex %d at %v", k, want, hugePos(want), gi, got.At(gi))
+		}
+	}
+	return nil
+}
+
 func TestC04(t *testing.T) {
 	vh.Drive(t, vh.Spec[Case]{Name: "default-writer", Quick: 40000, Thorough: 1500000, Gen: genCase, Run: runCase, Deadline: 20 * time.Second})
 	vh.Drive(t, vh.Spec[ConcCase]{Name: "concurrent-writers", Quick: 240, Thorough: 8000, Gen: genConc, Run: runConc, Repeat: 20})
 	vh.Drive(t, vh.Spec[CustomCase]{Name: "custom-writers", Quick: 40000, Thorough: 1500000, Gen: genCustom, Run: runCustom, Deadline: 20 * time.Second})
+	// ~1.2 GB and ~5 s per case; one case per encoding, on different shards
+	vh.Enumerate(t, vh.Spec[HugeCase]{Name: "huge-meshes", Run: runHuge, Deadline: 5 * time.Minute}, hugeCases())
 }
 
 func FuzzC04(f *testing.F) {
